@@ -1471,6 +1471,9 @@ class ProgramData:
                     raise RuntimeError("Program output should not contain an extension")
                 if not option_value:
                     raise RuntimeError("Missing value for argument " + option)
+                if not (option_value.isascii() and option_value.replace("_", "a").isalnum() and not option_value[0].isdigit()):
+                    # (it names the two files and prefixes every declaration in them)
+                    raise RuntimeError("Program output name must be usable as a C identifier")
                 program_output_name = option_value
             elif option_name == "O":
                 try:
